@@ -624,6 +624,31 @@ _upd("C06", "Acceptance is proved order independent as well (accepted_iff: a lis
      "method and parameter-name-erased pattern; accepted_order_independent; route_set_semantics joins acceptance and dispatch).",
      "Open: order independence of *acceptance* is checked differentially only.",
      "Which registration of a conflicting set is refused, and with which class, does depend on order (refusal_class_depends_on_order), as in the code.")
+# X06: iterative find, engine options, group paths
+_upd("C06", "The ITERATIVE find of tree.go (the loop as written: program points top/body/Param/Any, backtrackToNextNodeKind with the searchIndex / "
+     "paramIndex restore, the params backing array, tsr, the epilogue) is modelled (Model/RouteIter.lean) and proved equal to the recursive find on "
+     "every well-formed tree and every path, with termination within 4 x #nodes program points and no run-time panic (find_iter_eq_rec, "
+     "find_iter_terminates); ServeHTTP around it (trailing-slash redirect 301/307, HandleMethodNotAllowed 405 over the other method trees, NoRoute "
+     "404, 400) is modelled and the dispatch theorem is transferred to it with the no-handler outcome characterised (dispatch_selected_iter, "
+     "no_match_no_handler). The correspondence check now runs the iterative model against the real engine, status included, under all 32 settings "
+     "of RedirectTrailingSlash/HandleMethodNotAllowed/UseRawPath/UnescapePathValues/RemoveExtraSlash. One clause is false of the code and kept as a "
+     "negated witness (dispatch_selected_iter_fails_at, known finding C06-unescape-backtrack: with UseRawPath and UnescapePathValues a handler runs "
+     "for a path no pattern matches). RouterGroup path assembly (joinPaths, lastChar, path.Join, path.Clean) is modelled, held to the real functions, "
+     "and registration through any nesting of groups is proved to be registration of the flat list of absolute patterns "
+     "(route_set_semantics_groups, group_path_is_join, group_path_no_panic).",
+     "the recursive formulation of the iterative find (validated by the correspondence)",
+     "that node.parent pointers agree with the tree structure (the iterative model keeps the ancestor chain as a stack; validated by the correspondence)")
+_upd("C06", "", "path.Join (pattern cleaning) and URI normalisation are taken from the implementation; redirect-vs-404 for unmatched paths is not modelled (status copied).",
+     "URI normalisation (C07) and utils.CleanPath under RemoveExtraSlash are taken from the implementation (the harness reports the rPath the engine "
+     "routes on); RedirectFixedPath is off; the Location of a redirect is not compared. Open: registered_pattern_clean and the n-step form of "
+     "group_path_is_join (idempotence of path.Clean) are checked per case only.")
+PROPS["C06"]["rule"] += (" X06: the same observation under every one of the 32 option masks (op rtx: all ordered pairs of accepted clean patterns of <=2 "
+                         "segments on a GET and a POST tree with GET/POST/PUT lookups, random sets with escaped values and doubled slashes, methods incl. CONNECT); "
+                         "wide nodes (17-26 static children under one prefix, ascending / descending / shuffled registration, splits inside children); "
+                         "RouterGroup nestings of depth 0..2 (3) over 17 prefixes incl. '', '/', 'a', '/a/', '//a', 'a//b', '/:x', '/*y', '/a/../b', '.', '..' "
+                         "plus random ones (op grp), path.Clean on all strings of length <=6 (9) over {/ . a} and random byte strings (op pclean), path.Join pairs (op pjoin).")
+PROPS["C06"]["assumptions"][0] = "node.parent is the node that holds the child (maintained by insert; the iterative model keeps the ancestor chain)"
+PROPS["C06"]["assumptions"][2] = "RedirectFixedPath is off; theorems about dispatch assume values are not unescaped (UseRawPath off or UnescapePathValues off) - with both on the code is wrong (known finding); fewer than 65536 bytes per pattern"
 _upd("C07", "Equality of the normalizePath model with the decode-once-then-resolve-with-a-stack reference (normalize_eq_reference) and "
      "containment of the CleanPath model (cleanPath_contained) are proved for every byte string.",
      "Not proved: equality with the stack reference (checked per case), CleanPath containment (checked per case).",
